@@ -1261,9 +1261,8 @@ class DayTimeDuration(Duration):
 
     @classmethod
     def fromtimedelta(cls, td: datetime.timedelta) -> 'DayTimeDuration':
-        return cls(seconds=Decimal(
-            '{}.{:06}'.format(td.days * 86400 + td.seconds, td.microseconds)
-        ))
+        seconds = Decimal(td.days * 86400 + td.seconds)
+        return cls(seconds=seconds + Decimal(td.microseconds).scaleb(-6))
 
     def __init__(self, seconds: Union[Decimal, int] = 0) -> None:
         """
